@@ -418,7 +418,9 @@ func (a *c14App) ApplySnapshotChunkSync(r abci.RequestApplySnapshotChunk) (*abci
 	rep := <-a.rep
 	return &rep.apply, nil
 }
-func (a *c14App) EchoSync(s string) (*abci.ResponseEcho, error) { return &abci.ResponseEcho{Message: s}, nil }
+func (a *c14App) EchoSync(s string) (*abci.ResponseEcho, error) {
+	return &abci.ResponseEcho{Message: s}, nil
+}
 func (a *c14App) QuerySync(abci.RequestQuery) (*abci.ResponseQuery, error) {
 	return &abci.ResponseQuery{}, nil
 }
@@ -1011,11 +1013,12 @@ func c14ApplyResult(v int) abci.ResponseApplySnapshotChunk_Result {
 func c14ApplyName(v int) string { return c14ApplyResult(v).String() }
 
 // Directed scenarios (snapshot {2,1,3 chunks} known from peers 1,2,3):
-//  1  F20: the application rejects the sender of chunk 0 and asks to refetch it; the rejected
-//     sender delivers index 0 again
-//  2  F20 variant: reject-sender + RETRY_SNAPSHOT, then the rejected sender supplies a later index
-//  3  snapshot height 2^64-1: no state provider entry, the snapshot is rejected
-//  4  refetch of an already applied chunk and RETRY of the current one
+//
+//	1  F20: the application rejects the sender of chunk 0 and asks to refetch it; the rejected
+//	   sender delivers index 0 again
+//	2  F20 variant: reject-sender + RETRY_SNAPSHOT, then the rejected sender supplies a later index
+//	3  snapshot height 2^64-1: no state provider entry, the snapshot is rejected
+//	4  refetch of an already applied chunk and RETRY of the current one
 func c14Directed(directed int, script *int, index uint32, sender int) (int, []uint32, []int) {
 	*script++
 	switch directed {
